@@ -8,3 +8,14 @@ package xpath
 //@ func Parse(s string) (*Path, error)
 //@   trusted
 //@   assigns nothing
+
+// ---- C16: numeric literals of an expression --------------------------------------------------------------------
+// a literal without a decimal point is read as a 64-bit integer, exactly (never through a float, which would round
+// above 2^53); one with a point is the nearest float64
+//@ func num(s string) (interface{}, error)
+//@   mode int
+//@   property C16 C13
+//@   assigns nothing
+//@   ensures result1 == nil ==> dyn(result0) == int64 || dyn(result0) == float64
+//@   ensures result1 == nil && (forall k int :: 0 <= k && k < len(s) ==> s[k] != '.') ==> dyn(result0) == int64
+//@   ensures result1 == nil && dyn(result0) == int64 ==> Z(result0.(int64)) == strnum(s)
